@@ -924,6 +924,123 @@ func allMeths(vs []*mval) []*mval {
 
 var _ = errors.New
 
+// fmtCompat: the value (with everything reachable from it: container slots, method scripts, panic
+// payloads) can be printed by Go's own fmt and has no redact-specific rendering: no Safe/Unsafe
+// wrappers, no RedactableString/Bytes, no SafeFormatter/SafeMessager; Format methods only use the
+// io.Writer side of their fmt.State.
+func fmtCompat(v *mval) bool {
+	if v == nil {
+		return true
+	}
+	switch v.k {
+	case mSafe, mUnsafe, mRedactable:
+		return false
+	case mMeth:
+		if v.leaf == 4 || v.leaf == 7 {
+			return false
+		}
+	}
+	for _, o := range v.script {
+		switch o.tag {
+		case "wr", "ip":
+		case "pa":
+			if !fmtCompat(o.pay) {
+				return false
+			}
+		default:
+			return false
+		}
+	}
+	for _, k := range v.kids {
+		if !fmtCompat(k) {
+			return false
+		}
+	}
+	for _, k := range v.keys {
+		if !fmtCompat(k) {
+			return false
+		}
+	}
+	return true
+}
+
+// printerPlainCase: the model's unclassified run (C04's reference text: the printer functions
+// started under a safe override, where every write is appended verbatim) against Go's own fmt.
+func printerPlainCase(r *Rng, route string, emit func(Case)) {
+	cfg := regCfg(0)
+	if r.Chance(30) {
+		cfg = regCfg(r.Intn(16))
+	}
+	cfg.apply()
+	redact.RegisterRedactErrorFn(nil)
+	c := &mctx{r: r, cfg: cfg}
+	n := r.Intn(4)
+	var args []*mval
+	for i := 0; i < n; i++ {
+		var a *mval
+		for try := 0; try < 30; try++ {
+			a = c.gen(0)
+			if fmtCompat(a) {
+				break
+			}
+			a = nil
+		}
+		if a == nil {
+			a = c.genLeaf()
+		}
+		args = append(args, a)
+	}
+	format := ""
+	if route != "plain" {
+		format = genMFormat(r, n, false)
+		if excludedDirective(format) || strings.Contains(format, "w") {
+			format = "%v"
+		}
+	}
+	gargs := goArgs(args)
+	var out string
+	pm := safely(func() {
+		if route == "plain" {
+			out = fmt.Sprint(gargs...)
+		} else {
+			out = fmt.Sprintf(format, gargs...)
+		}
+	})
+	real := "ok " + hx([]byte(out))
+	if pm != "" {
+		real = "panic"
+	}
+	var sb strings.Builder
+	sb.WriteString("pr " + route + " 0 " + hx([]byte(format)) + " " + fmt.Sprint(len(args)) + " ")
+	for _, a := range args {
+		c.ser(a, &sb)
+	}
+	sb.WriteString("| ")
+	sb.WriteString(c.table(candidateDirs(format, args, route != "plain")))
+	emit(Case{Line: strings.TrimRight(sb.String(), " "), Real: real, Nontriv: len(args) > 0, Kind: route})
+}
+
+// streamPrinterPlain ties the specification side of C04's theorems to Go's fmt: what the model
+// writes when nothing is classified is what fmt.Sprint/Sprintf returns, byte for byte.
+func streamPrinterPlain(rep *Report, tier string, seed uint64) {
+	n := 30000
+	if tier == "thorough" {
+		n = 1000000
+	}
+	if v := os.Getenv("VERIF_PM_N"); v != "" {
+		fmt.Sscanf(v, "%d", &n)
+	}
+	RunStreamFiltered(rep, "P-plain", false, "the model's unclassified run (Props/C04: plainSprint/plainSprintf) vs Go's fmt.Sprint/fmt.Sprintf: random formats (incl. malformed, indexes, *) x fmt-compatible model-universe values (leaves, Stringer/error/GoStringer/Formatter incl. panicking and nil-receiver ones, slices, maps, structs, pointers, SafeValue and registered types)", 1,
+		func(sh, ns int, emit func(Case)) {
+			r := NewRng(seed*1000 + 5151)
+			defer resetRegistry()
+			for i := 0; i < n; i++ {
+				route := []string{"plain", "plainf", "plainf", "plainf"}[r.Intn(4)]
+				printerPlainCase(r, route, emit)
+			}
+		})
+}
+
 func streamPrinterModel(rep *Report, tier string, seed uint64) {
 	n := 30000
 	if tier == "thorough" {
